@@ -1666,6 +1666,164 @@ example : ∃ rs : List Rec, (∀ r ∈ rs, WFRec r) ∧ rs ≠ [] :=
     exact ⟨by decide, by decide, by decide, by decide, by decide⟩, by simp⟩
 
 
+
+/-! ### round 4: characterisations in plain list vocabulary, lookup by name -/
+
+/-- **C17.wrap_filter**: the wrapped block is the sequence with newlines inserted — removing the
+newline bytes gives back exactly the sequence (no base lost, duplicated or reordered) -/
+theorem wrap_filter (W : Nat) (hW : 0 < W) (seq : Bytes) (h : 10 ∉ seq) :
+    (wrapBytes W seq).filter (· != 10) = seq := by
+  have key : ∀ n, ∀ s : Bytes, s.length ≤ n → 10 ∉ s → (wrapBytes W s).filter (· != 10) = s := by
+    intro n
+    induction n with
+    | zero =>
+      intro s hl _
+      have : s = [] := List.eq_nil_of_length_eq_zero (by omega)
+      subst this; simp [wrap_nil]
+    | succ m ih =>
+      intro s hl h10
+      by_cases hs : s = []
+      · subst hs; simp [wrap_nil]
+      · have hL : 0 < s.length := by cases s with | nil => exact absurd rfl hs | cons _ _ => simp
+        rw [wrap_cons W hW s hs, List.filter_append, List.filter_cons]
+        simp only [bne_self_eq_false, Bool.false_eq_true, if_false]
+        rw [ih (s.drop W) (by rw [List.length_drop]; omega) (fun hm => h10 (List.mem_of_mem_drop hm))]
+        have : (s.take W).filter (· != 10) = s.take W := by
+          apply List.filter_eq_self.mpr
+          intro b hb
+          have : b ≠ 10 := fun hc => h10 (List.mem_of_mem_take (hc ▸ hb))
+          simpa using this
+        rw [this, List.take_append_drop]
+  exact key seq.length seq (Nat.le_refl _) h
+
+/-- every line of the wrapped block has at most `W` bases, all but the last exactly `W` -/
+theorem chunks_widths (W : Nat) (hW : 0 < W) (seq : Bytes) :
+    (chunks W seq).flatten = seq ∧ ∀ l ∈ chunks W seq, 0 < l.length ∧ l.length ≤ W := by
+  have key : ∀ n, ∀ s : Bytes, s.length ≤ n →
+      (chunks W s).flatten = s ∧ ∀ l ∈ chunks W s, 0 < l.length ∧ l.length ≤ W := by
+    intro n
+    induction n with
+    | zero =>
+      intro s hl
+      have : s = [] := List.eq_nil_of_length_eq_zero (by omega)
+      subst this; simp [chunks_nil]
+    | succ m ih =>
+      intro s hl
+      by_cases hs : s = []
+      · subst hs; simp [chunks_nil]
+      · have hL : 0 < s.length := by cases s with | nil => exact absurd rfl hs | cons _ _ => simp
+        obtain ⟨i1, i2⟩ := ih (s.drop W) (by rw [List.length_drop]; omega)
+        rw [chunks_cons W hW s hs]
+        refine ⟨by simp [i1], ?_⟩
+        intro l hl'
+        simp only [List.mem_cons] at hl'
+        rcases hl' with rfl | hl'
+        · simp only [List.length_take]; omega
+        · exact i2 l hl'
+  exact key seq.length seq (Nat.le_refl _)
+
+/-- **C17.delete_eq_filter**: the model of `np.delete` is "keep the elements whose position is not
+listed" in standard list vocabulary -/
+theorem delete_eq_filter (l : Bytes) (idxs : List Nat) :
+    deleteIdx l idxs = (l.zipIdx.filter (fun p => !idxs.contains p.2)).map (·.1) := by
+  unfold deleteIdx
+  have key : ∀ (i : Nat) (l : Bytes),
+      deleteIdxFrom idxs i l = ((l.zipIdx i).filter (fun p => !idxs.contains p.2)).map (·.1) := by
+    intro i l
+    induction l generalizing i with
+    | nil => rfl
+    | cons x xs ih =>
+      simp only [deleteIdxFrom, List.zipIdx_cons, List.filter_cons]
+      cases hc : idxs.contains i with
+      | true => simp [ih]
+      | false => simp [ih]
+  exact key 0 l
+
+/-- **C17.lines_join**: `linesOf` is the inverse of "terminate every line with a newline" -/
+theorem lines_join (ls : List Bytes) (h : ∀ l ∈ ls, 10 ∉ l) :
+    linesOf (ls.map (· ++ [10])).flatten = ls := by
+  unfold linesOf
+  induction ls with
+  | nil => simp [linesAux]
+  | cons l r ih =>
+    simp only [List.map_cons, List.flatten_cons, List.append_assoc, List.singleton_append]
+    rw [lines_line [] l _ (h l (by simp)), ih (fun x hx => h x (by simp [hx]))]
+    simp
+
+/-- **C17.firstWord_spec**: the name is the longest whitespace-free prefix of the header -/
+theorem firstWord_spec (h : Bytes) :
+    ∃ rest, h = firstWord h ++ rest ∧ (∀ b ∈ firstWord h, isWs b = false) ∧
+      (rest = [] ∨ ∃ c t, rest = c :: t ∧ isWs c = true) := by
+  unfold firstWord
+  induction h with
+  | nil => exact ⟨[], rfl, by simp, Or.inl rfl⟩
+  | cons c cs ih =>
+    by_cases hc : isWs c = true
+    · exact ⟨c :: cs, by simp [hc], by simp [hc], Or.inr ⟨c, cs, rfl, hc⟩⟩
+    · have hc' : isWs c = false := by simpa using hc
+      obtain ⟨rest, e1, e2, e3⟩ := ih
+      refine ⟨rest, ?_, ?_, e3⟩
+      · simp only [List.takeWhile_cons, hc', Bool.not_false, if_true, List.cons_append]
+        rw [← e1]
+      · intro b hb
+        simp only [List.takeWhile_cons, hc', Bool.not_false, if_true, List.mem_cons] at hb
+        rcases hb with rfl | hb
+        · exact hc'
+        · exact e2 b hb
+
+/-- **C17.lookup_finds**: looking a record up by its name in the built index finds exactly its row,
+provided no EARLIER record has the same name (first match wins, as in the `dict` the code builds
+the last one would — so names must be distinct for the file to be usable at all) -/
+theorem lookup_finds (rs1 rs2 : List Rec) (r : Rec) (hwf : ∀ x ∈ rs1 ++ r :: rs2, WFRec x)
+    (hdist : ∀ x ∈ rs1, firstWord x.header ≠ firstWord r.header) :
+    ∃ row, lookup (createIndex (fileOf (rs1 ++ r :: rs2))) (firstWord r.header) = some row ∧
+      row.name = firstWord r.header ∧ row.rlen = r.seq.length ∧
+      fetchContig (fileOf (rs1 ++ r :: rs2)) row = r.seq := by
+  obtain ⟨row, hrow, hname, hlen, _, hcontig⟩ := random_access rs1 rs2 r hwf 0 0 (Nat.le_refl _) (Nat.zero_le _)
+  refine ⟨row, ?_, hname, hlen, hcontig⟩
+  rw [(index_rows _ hwf).2] at hrow ⊢
+  unfold specIndex at hrow ⊢
+  rw [specIndexFrom_append, List.map_append] at hrow ⊢
+  unfold lookup
+  rw [List.find?_append]
+  have hnone : ((specIndexFrom 0 rs1).map (fun r => { r with name := firstWord r.name })).find?
+      (fun x => firstWord x.name == firstWord r.header) = none := by
+    rw [List.find?_eq_none]
+    intro x hx
+    obtain ⟨x0, hx0, rfl⟩ := List.mem_map.mp hx
+    simp only [firstWord_idem]
+    have : ∃ y ∈ rs1, x0.name = y.header := by
+      have key : ∀ (off : Nat) (l : List Rec), x0 ∈ specIndexFrom off l → ∃ y ∈ l, x0.name = y.header := by
+        intro off l
+        induction l generalizing off with
+        | nil => intro hm; simp [specIndexFrom] at hm
+        | cons y l ih =>
+          intro hm
+          simp only [specIndexFrom, List.mem_cons] at hm
+          rcases hm with rfl | hm
+          · exact ⟨y, by simp, rfl⟩
+          · obtain ⟨y', hy', he⟩ := ih _ hm
+            exact ⟨y', by simp [hy'], he⟩
+      exact key 0 rs1 hx0
+    obtain ⟨y, hy, he⟩ := this
+    rw [he]
+    simpa using hdist y hy
+  rw [hnone, Option.none_or]
+  rw [List.getElem?_append_right (by simp [length_specIndexFrom])] at hrow
+  simp only [List.length_map, length_specIndexFrom, Nat.sub_self, specIndexFrom, List.map_cons,
+    List.getElem?_cons_zero, Option.some.injEq] at hrow
+  simp only [specIndexFrom, List.map_cons, List.find?_cons]
+  rw [← hrow]
+  simp [firstWord_idem]
+
+
+/-- **C17.index_chunk_size_independent**: the index does not depend on how the reader chunks the file -/
+theorem index_chunk_size_independent (rs : List Rec) (h : ∀ r ∈ rs, WFRec r) (m1 m2 : C01.Mode) (k1 k2 : Nat)
+    (h1 : 0 < k1) (h2 : 0 < k2) :
+    createIndexChunked (C01.readAll C01.Fmt.fasta true m1 (fileOf rs) k1)
+      = createIndexChunked (C01.readAll C01.Fmt.fasta true m2 (fileOf rs) k2) := by
+  rw [index_reader_chunks rs h m1 k1 h1, index_reader_chunks rs h m2 k2 h2]
+
 section Traced
 open Gen.C17
 
